@@ -130,21 +130,7 @@ func (lp *ListParser) getBullet(styleName string, level int, itemNum int) string
 
 // extractParagraphText extracts text from a paragraph XML element.
 func extractParagraphText(p paragraphXML) string {
-	var parts []string
-
-	// Direct text content
-	if p.Text != "" {
-		parts = append(parts, p.Text)
-	}
-
-	// Text from spans
-	for _, span := range p.Spans {
-		if span.Text != "" {
-			parts = append(parts, span.Text)
-		}
-	}
-
-	return strings.Join(parts, "")
+	return inlineText(p.Content)
 }
 
 // getBulletChar returns a bullet character based on nesting level.
